@@ -15,7 +15,7 @@ from pathlib import Path
 from ..common import REPO, Unsupported
 from . import models as M
 from .models import Ctx
-from .sym import GDict, GList, SBool, SList, SSet, SymCount, band, bite, bnot, bor, guard_of, is_sym, lift, merge, wrap
+from .sym import Choice, GDict, GList, SBool, SList, SSet, SymCount, subsets_of, band, bite, bnot, bor, guard_of, is_sym, lift, merge, wrap
 
 SRC = REPO / "src" / "y0"
 MODULES = {
@@ -25,6 +25,8 @@ MODULES = {
     "comb": "util/combinatorics.py",
     "sigma": "algorithm/separation/sigma_separation.py",
     "simplify": "algorithm/simplify_latent.py",
+    "ancutil": "algorithm/counterfactual_transport/ancestor_utils.py",
+    "transport": "algorithm/transport.py",
 }
 
 
@@ -197,7 +199,7 @@ class Interp:
                         if isinstance(sub, ast.FunctionDef):
                             self.classes[node.name][sub.name] = PyFunc(self, mod, sub, cls=node.name)
         g = self.globals
-        for name in ("Variable", "Intervention", "CounterfactualVariable"):
+        for name in ("Variable", "Intervention", "CounterfactualVariable", "_upgrade_variables"):
             g[name] = getattr(dsl, name)
         g["NxMixedGraph"] = ClassRef("NxMixedGraph")
         g["DSeparationJudgement"] = ClassRef("DSeparationJudgement")
@@ -1026,6 +1028,28 @@ class Interp:
             return fn(*args, **kwargs)
         if not sym:
             return fn(*args, **kwargs)
+        from y0.dsl import CounterfactualVariable, Variable
+
+        if name == "_upgrade_variables" and len(args) == 1 and isinstance(args[0], SSet):
+            return args[0]  # a guarded set of Variable objects is already 'upgraded'
+        if name == "intervene" and isinstance(getattr(fn, "__self__", None), Variable) and len(args) == 1 and isinstance(args[0], SSet):
+            # Variable.intervene(<guarded set of interventions>): one alternative per subset
+            out = []
+            for g, sub in subsets_of(args[0]):
+                if sub:
+                    out.append((g, fn(sub)))
+                else:
+                    M.record_raise(g, "ValueError", "intervene() with an empty set")
+            return Choice(out)
+        if fn is CounterfactualVariable and not args and isinstance(kwargs.get("interventions"), SSet):
+            out = []
+            rest = {k: v for k, v in kwargs.items() if k != "interventions"}
+            for g, sub in subsets_of(kwargs["interventions"]):
+                if sub:
+                    out.append((g, fn(interventions=sub, **rest)))
+                else:
+                    M.record_raise(g, "ValueError", "CounterfactualVariable without interventions")
+            return Choice(out)
         raise Unsupported(f"native call {name or fn!r} with symbolic arguments")
 
 
@@ -1122,7 +1146,10 @@ class SetMethod:
         if n == "copy":
             return SSet(dict(S.d)) if isinstance(s, SSet) else set(s)
         if n in ("update", "add"):
-            add = SSet.of(args[0]) if n == "update" else SSet({args[0]: True})
+            if n == "add" and isinstance(args[0], Choice):
+                add = SSet.of(SList(list(args[0].items)))
+            else:
+                add = SSet.of(args[0]) if n == "update" else SSet({args[0]: True})
             if isinstance(s, SSet):
                 for k, g in add.d.items():
                     s.d[k] = bor(s.d.get(k, False), band(Ctx.pc, g))
@@ -1176,7 +1203,7 @@ def m_frozenset(interp, it=()):
         s = SSet.of(it)
         if s.is_concrete():
             return frozenset(s.concrete())
-        raise Unsupported("frozenset of a symbolic collection")
+        return s  # a guarded set; immutability is not modelled
     return frozenset(it)
 
 
@@ -1310,10 +1337,6 @@ def nx_set_node_attributes(g, value, name):
         here = band(Ctx.pc, g.node[v])
         g.attr_has[(v, name)] = bor(g.attr_has.get((v, name), False), here)
         g.attr[(v, name)] = bite(here, guard_of(value), g.attr.get((v, name), False))
-
-
-class Choice(SList):
-    """One-of value (result of min over a guarded collection): guarded alternatives."""
 
 
 _pref_counter = [0]
